@@ -5,7 +5,7 @@ from imports import imported
 
 PROPERTY = "C14"
 LEVEL = "proof"
-EXPLANATION = ("Sufficient condition for race freedom decided by frames: VmBase::allocate (run by every create_vm) writes only the VM, the allocator's result and thread-local storage; the generator's operand selection writes only the objects it is given (function-local statics are hoisted by the extraction so that the frame check sees them); dataset initialisation writes exactly the requested items; the light dataset read writes only the VM. Interleavings themselves are not explored; ThreadSanitizer replays confirm reported violations.")
+EXPLANATION = ("Sufficient condition for race freedom decided by frames: VmBase::allocate (run by every create_vm) writes only the VM, the allocator's result and thread-local storage; the program generator (main loop, create, operand selection, port query) writes only the objects it is given (function-local statics are hoisted by the extraction so that the frame check sees them); dataset initialisation writes exactly the requested items; the light dataset read writes only the VM. Interleavings themselves are not explored; ThreadSanitizer replays confirm reported violations.")
 TRUSTED = ['ThreadSanitizer replays are dynamic checks of specific schedules (confirmation of reported violations only)', 'extraction rule: function-local non-const statics are hoisted to file scope so that the contract instrumentation does not add them to the frame silently; thread-local file-scope objects are added to the frame (RXV_THREAD_LOCAL_TARGETS)']
 ASSUMPTIONS = []
 NOT_DECIDED = ['interleavings / memory model (no thread support in CBMC contracts): race freedom is concluded from disjoint frames only', 'compiled VM code buffers, hand-written assembly dataset initialiser re-entrancy', 'frames of the remaining per-VM operations (run, initScratchpad, getFinalResult) beyond what C02/C05 contracts state']
@@ -31,6 +31,9 @@ OBLIGATIONS += [
     # program generation (inside randomx_init_cache, on the thread's own cache) writes only the objects it is given
     dict(imported("C09", "select_destination_obeys_operand_rules_and_frame", "generator_select_destination_writes_no_shared_object"), replay=RACE_REPLAY),
     dict(imported("C09", "select_source_obeys_operand_rules_and_frame", "generator_select_source_writes_no_shared_object"), replay=RACE_REPLAY),
+    dict(imported("C09", "generator_skeleton_program_bounds_termination_rule_and_termination", "generator_main_loop_writes_only_the_program_it_is_given"), replay=RACE_REPLAY),
+    dict(imported("C09", "create_sets_immediates_and_groups_as_table_6_1_1", "generator_create_writes_only_the_instruction_it_is_given"), replay=RACE_REPLAY),
+    dict(imported("C09", "schedule_mop_first_cycle_all_uops_can_execute_commit0", "generator_port_query_writes_nothing"), replay=RACE_REPLAY),
     # dataset initialisation from a shared cache writes exactly the requested items (disjoint ranges -> disjoint writes)
     imported("C08", "init_dataset_writes_exactly_requested_items", "init_dataset_writes_exactly_the_requested_items"),
     # light-mode dataset read: reads the shared cache, writes only the VM's own registers
